@@ -12,6 +12,7 @@ outs=[mod.impl(c) for c in cs]
 lines=[mod.model_line(c) if hasattr(mod,"model_line") else c for c in cs]
 idx=[i for i,l in enumerate(lines) if l is not None]
 mo=dict(zip(idx,run.run_driver([dict(lines[i],prop=pid) for i in idx])))
+if hasattr(mod,'model_canon'): mo={i:mod.model_canon(o) for i,o in mo.items()}
 cnt=Counter(); ex={}
 for i,(c,o) in enumerate(zip(cs,outs)):
     if i in mo:
